@@ -281,6 +281,11 @@ func (t *UnicastTCPTransport) CloseConn() {
 // Close the connection permanently - this will not attempt to reconnect.
 func (t *UnicastTCPTransport) Close() {
 	t.closed = true
-	t.rechan <- false
+	// Tell a receive loop that is waiting for a reconnection to stop. Do not block: the
+	// receive loop calls Close again when it ends, and nobody may be left to read the signal.
+	select {
+	case t.rechan <- false:
+	default:
+	}
 	t.CloseConn()
 }
